@@ -17,6 +17,7 @@ from __future__ import annotations
 
 import concurrent.futures
 import itertools
+import json
 import os
 import random
 
@@ -116,6 +117,20 @@ def evaluate(ctx, runs):
             ctx.nontrivial.add(k)
 
 
+def guarded(ctx, name, fn, *a):
+    """an unexpected shape of the code (constructor signature, missing attribute, unparsable source) is a
+    broken obligation and the search goes on with the other stages; never an infrastructure error"""
+    try:
+        return fn(ctx, *a)
+    except core.InfraError:
+        raise
+    except (Exception, SystemExit) as e:  # noqa: BLE001
+        import traceback
+        ctx.broke("C09 stage %s could not drive the real code: %s" % (name, type(e).__name__),
+                  traceback.format_exc()[-1500:])
+        return None
+
+
 def witness_stage(ctx):
     """the stored witnesses of the known findings are replayed on the real code on every run"""
     runs = FC.correspond(ctx, [WITNESS_F13, WITNESS_F17], component="followup-witness")
@@ -157,6 +172,145 @@ def proportion_grid_stage(ctx):
     ctx.count("proportion_grid_cells", len(cells))
 
 
+
+# ------------------------------------------------------------------------------------------------
+# state that survives between cases in one process (LESSONS 1)
+# ------------------------------------------------------------------------------------------------
+MODELLED_SOURCES = ["programs/site_level_method.py", "programs/method.py", "programs/component_level_method.py",
+                    "scheduling/follow_up_mobile_schedule.py", "scheduling/generic_schedule.py",
+                    "scheduling/follow_up_survey_planner.py", "scheduling/survey_planner.py",
+                    "scheduling/workplan.py", "scheduling/surveying_dataclasses.py", "utils/queue.py"]
+
+
+def shared_state_table(ctx):
+    """class-level / module-level mutable containers, caches and copy / pickle hooks of the classes the
+    model covers, read from the source (ast).  Expected: none — every container of the work practice is
+    created per instance.  Anything found is a broken obligation (the model has no such sharing); the
+    interleaved stage then searches a failing history."""
+    import ast
+    from harness import shim
+    found = []
+    mutable_calls = {"list", "dict", "set", "SortedList", "defaultdict", "OrderedDict", "deque", "PriorityQueue",
+                     "PriorityQueueWithFIFO", "Counter"}
+
+    def is_mutable(v):
+        if isinstance(v, (ast.List, ast.Dict, ast.Set, ast.ListComp, ast.DictComp, ast.SetComp)):
+            return True
+        if isinstance(v, ast.Call):
+            f = v.func
+            name = f.id if isinstance(f, ast.Name) else (f.attr if isinstance(f, ast.Attribute) else "")
+            return name in mutable_calls
+        return False
+
+    for rel in MODELLED_SOURCES:
+        path = os.path.join(shim.REPO_SRC, rel)
+        tree = ast.parse(open(path).read())
+        for node in tree.body:
+            if isinstance(node, (ast.Assign, ast.AnnAssign)) and node.value is not None and is_mutable(node.value):
+                found.append("%s:%d module-level container" % (rel, node.lineno))
+            if isinstance(node, ast.ClassDef):
+                for b in node.body:
+                    if isinstance(b, (ast.Assign, ast.AnnAssign)) and b.value is not None and is_mutable(b.value):
+                        found.append("%s:%d class-level container in %s" % (rel, b.lineno, node.name))
+                    if isinstance(b, ast.FunctionDef):
+                        if b.name in ("__deepcopy__", "__copy__", "__reduce__", "__reduce_ex__", "__getstate__",
+                                      "__setstate__"):
+                            found.append("%s:%d copy/pickle hook %s.%s" % (rel, b.lineno, node.name, b.name))
+                        for dec in b.decorator_list:
+                            txt = ast.unparse(dec)
+                            if "cache" in txt:
+                                found.append("%s:%d cached method %s.%s (%s)" % (rel, b.lineno, node.name, b.name, txt))
+            if isinstance(node, ast.FunctionDef):
+                for dec in node.decorator_list:
+                    if "cache" in ast.unparse(dec):
+                        found.append("%s:%d cached function %s" % (rel, node.lineno, node.name))
+    ctx.extra["shared_state_table"] = found
+    ctx.evaluations += len(MODELLED_SOURCES)
+    if found:
+        ctx.broke("C09 shared-state table: the modelled classes hold state outside their instances", "\n".join(found))
+
+
+def _deterministic(h):
+    h = json.loads(json.dumps(h))
+    if isinstance(h["fu"].get("travel"), list):
+        h["fu"]["travel"] = 0          # a list of travel times is sampled with the unseeded random.choice
+    return h
+
+
+def same_process_stage(ctx):
+    """histories whose keys collide (same site ids, same method / follow-up names) but whose values differ
+    are run in ONE process with all their real objects alive at once, advanced day by day in round-robin,
+    in both orders, and each result must equal the history run alone; then two worlds are built from the
+    SAME parameter dictionaries (and the same history object), which must come out deep-equal"""
+    from harness.adapters import followup as F
+    rng = ctx.rng
+    groups = ctx.pick(60, 600)
+    for _ in range(groups):
+        k = rng.choice([2, 3])
+        nm = rng.choice([1, 1, 2])
+        base = _deterministic(FC.gen_history(rng, nmethods=nm))
+        hs = [base]
+        for _j in range(k - 1):
+            h = _deterministic(FC.gen_history(rng, nmethods=nm, stationary=base["methods"][0]["stationary"]))
+            # colliding keys: same names, same ids (as far as the site counts allow), same start
+            for key in ("names", "fu_name", "start"):
+                if key in base:
+                    h[key] = base[key]
+                else:
+                    h.pop(key, None)
+            ids = base.get("ids") or ["s%d" % i for i in range(base["nsites"])]
+            if h["nsites"] <= len(ids):
+                h["ids"] = ids[:h["nsites"]]
+            else:
+                h.pop("ids", None)
+            hs.append(h)
+        alone = [F.run_history(h) for h in hs]
+        for order in (list(range(k)), list(reversed(range(k)))):
+            res = F.run_interleaved([hs[j] for j in order])
+            for pos, j in enumerate(order):
+                ctx.evaluations += 1
+                if res[pos] is None or res[pos][1] != alone[j][1]:
+                    got = None if res[pos] is None else res[pos][1]
+                    first = next((x for x in range(min(len(got or []), len(alone[j][1])))
+                                  if got[x] != alone[j][1][x]), None)
+                    ctx.violate("C09:history-dependence:interleaved",
+                                "a history run together with other histories in one process (colliding site ids / "
+                                "method names) behaves differently from the same history run alone",
+                                {"interleaved": [hs[x] for x in order], "differs": j, "first_line": first,
+                                 "alone": None if first is None else alone[j][1][first],
+                                 "together": None if first is None or got is None else got[first]})
+                    break
+        ctx.traces += 1
+        # several real objects from the same input
+        h = hs[0]
+        props = [F.screening_props(mp, h.get("fu_name") or "FU") for mp in h["methods"]]
+        props_before = json.dumps(props, sort_keys=True, default=str)
+        hist_before = json.dumps(h, sort_keys=True)
+        r1 = F.run_history(h, props)
+        r2 = F.run_history(h, props)
+        ctx.evaluations += 1
+        if r1[1] != alone[0][1] or r2[1] != alone[0][1]:
+            ctx.violate("C09:history-dependence:shared-input",
+                        "two sets of real objects built from the same parameter dictionaries do not behave alike",
+                        {"history": h})
+        if json.dumps(props, sort_keys=True, default=str) != props_before or json.dumps(h, sort_keys=True) != hist_before:
+            ctx.violate("C09:history-dependence:input-mutated",
+                        "the parameter dictionaries handed to the constructors were modified", {"history": h})
+    ctx.count("same_process_groups", groups)
+
+
+def boundary_histories(ctx):
+    """boundary dates on purpose: every listed first day (New Year inside the history, leap day, day 366,
+    Dec 31, Jan 1, the same dates one year apart) with histories of 1, 2 and several days"""
+    rng = ctx.rng
+    out = []
+    for st in FC.BOUNDARY_STARTS:
+        for nd in (1, 2, 5, 9):
+            for _ in range(ctx.pick(2, 10)):
+                out.append(FC.gen_history(rng, nmethods=rng.choice([1, 1, 2]), start=st, ndays=nd))
+    return out
+
+
 # ------------------------------------------------------------------------------------------------
 # whole simulations
 # ------------------------------------------------------------------------------------------------
@@ -164,11 +318,14 @@ def _whole_one(args):
     seed, k = args
     from harness import wholerun
     rng = random.Random(seed * 7919 + k)
-    cfg = wholerun.make_config(rng, n_sims=1)
-    res = wholerun.run_config(cfg, debug=True, processes=1, trace=True)
+    # execution modes: odd runs go through the process pool with two simulations (two simulations per
+    # worker / pickled programs), even runs are sequential (debug) with one simulation
+    pool = k % 2 == 1
+    cfg = wholerun.make_config(rng, n_sims=2 if pool else 1)
+    res = wholerun.run_config(cfg, debug=not pool, processes=2 if pool else 1, trace=True)
     try:
         out = {"cfg": cfg, "rc": res.rc if hasattr(res, "rc") else None, "log": (res.log or "")[-2000:]
-               if hasattr(res, "log") else "", "traces": res.trace}
+               if hasattr(res, "log") else "", "traces": res.trace, "pool": pool}
         return out
     finally:
         res.cleanup()
@@ -272,8 +429,14 @@ def wholerun_oracle(ctx):
         results = list(ex.map(_whole_one, jobs))
     tot = {"fu_visits": 0, "flags": 0, "fuq": 0, "snapshots": 0}
     for out in results:
+        ctx.count("whole:mode:" + ("pool" if out["pool"] else "debug"))
         if not out["traces"]:
-            raise core.InfraError("whole run produced no trace: " + out["log"][-600:])
+            # a crash of the simulator is a broken obligation (with the configuration as replay input),
+            # the other runs are still evaluated
+            ctx.broke("C09 whole run produced no trace (%s mode)" % ("pool" if out["pool"] else "debug"),
+                      out["log"][-1500:])
+            ctx.disagree("whole-run", {"whole_run_cfg": out["cfg"]}, "trace", "no trace")
+            continue
         for tr in out["traces"]:
             viol, stats = check_trace(out["cfg"], tr)
             for k, v in stats.items():
@@ -299,9 +462,11 @@ def run(ctx):
                 "histories; non-trivial = at least one site flagged; distinct by (methods, kind, filter/window, "
                 "priority, proportion, delay, reporting delay, instant?, routes and outcomes that occurred)")
     core.lean_stage(ctx, MODULE, FILE, drivers=["drv_followup"])
-    witness_stage(ctx)
-    proportion_grid_stage(ctx)
-    hists = build_histories(ctx)
+    guarded(ctx, "witness", witness_stage)
+    guarded(ctx, "shared-state-table", shared_state_table)
+    guarded(ctx, "proportion-grid", proportion_grid_stage)
+    guarded(ctx, "same-process", same_process_stage)
+    hists = build_histories(ctx) + boundary_histories(ctx)
     chunk = 2000
     sampled = 0
     for a in range(0, len(hists), chunk):
@@ -311,7 +476,7 @@ def run(ctx):
             if sampled < 3 and any(e["ctx"] == "decision" for e in w.queue_log):
                 ctx.sample({"methods": h["methods"], "days": len(h["days"]), "last_reply": impl[-1]})
                 sampled += 1
-    wholerun_oracle(ctx)
+    guarded(ctx, "whole-run", wholerun_oracle)
     ctx.assumptions.append("rates on the integer grid 840*k, dyadic proportions: every double computed by the code is "
                            "the correctly rounded value of a small rational, recovered exactly (asserted)")
     ctx.assumptions.append("follow-up survey outcomes (complete / in progress / unattended) are inputs of the model; "
@@ -330,6 +495,16 @@ def replay(ctx, data):
                 print(l, "->", i)
         if w.crash:
             print("real code stopped:", w.crash)
+    elif "interleaved" in inp:
+        from harness.adapters import followup as F
+        hs = inp["interleaved"]
+        res = F.run_interleaved(hs)
+        for j, h in enumerate(hs):
+            alone = F.run_history(h)
+            same = res[j] is not None and res[j][1] == alone[1]
+            print("history %d: together == alone: %s" % (j, same))
+            if not same:
+                ctx.violate("C09:history-dependence:interleaved", "differs from the history run alone", {"index": j})
     elif "proportion_grid" in inp:
         from harness.adapters import followup as F
         g = inp["proportion_grid"]
